@@ -10,6 +10,7 @@ def jobs(tier, seed):
     J += waitempty_jobs(tier)
     J += notify_jobs(tier)
     J += lockheld_jobs(tier)
+    J += evthread_jobs(tier)
     return J
 
 def reinit_jobs(tier):
@@ -155,8 +156,27 @@ def lockheld_jobs(tier):
         J.append(dict(name="c11_lockheld_%s" % ep, harness="lockheld.c", defines=defs, real=[tu], support=["vp_rt.c"],
                       replace=repl + ["LH_never_defined"], replace_with=["lh_stubs.c"], unwind=4, backend="cadical", mem_gb=4,
                       timeout=240, native=False, kf_group=("c11_lockheld_" + finding) if finding else None,
-                      unwindset=["chan_equal.0:33", "chan_equal.1:17", "ares_strcpy.0:33", "strlen.0:40", "memcpy.0:40", "memset.0:600"],
+                      unwindset=["chan_equal.0:33", "chan_equal.1:17", "ares_strcpy.0:33", "strlen.0:40", "memcpy.0:40", "memset.0:600",
+                                 "harness.0:20", "harness.1:20", "harness.2:20", "harness.3:20", "vp_bytes.0:17", "ares_process.0:6"],
                       witnesses=["end"] + wit,
                       bound="real %s() from %s; all callees that touch shared state are lock-asserting stubs returning any "
                             "status; world: 0..2 servers x 0..2 connections, 0..2 outstanding requests" % (ep, tu)))
+    return J
+
+def evthread_jobs(tier):
+    J = []
+    names = ["loop", "update", "sockstate_cb", "notifywrite_cb"]
+    wit = [["end", "event mutex taken while the channel lock is held", "called into the channel", "all iterations"],
+           ["end", "queued", "rejected"], ["end", "woken"], ["end"]]
+    for op in range(4):
+        J.append(dict(name="c11_evthread_order_%s" % names[op], harness="evthread.c",
+                      defines=["-DOP=%d" % op, "-DMAXITER=%d" % (1 if tier == "quick" else 2)],
+                      real=[], support=["vp_rt.c"], unwind=6, backend="cadical", mem_gb=6,
+                      timeout=240, native=False, witnesses=wit[op],
+                      unwindset=["ares_event_thread.0:4", "ares_event_process_updates.0:6", "ares_event_update_find.0:6"],
+                      bound=["one (thorough: two) iteration(s) of the real ares_event_thread() loop + cleanup; socket 5 unregistered or "
+                             "registered; each call into the channel may trigger the socket-state and pending-write callbacks "
+                             "(under the channel lock); a ready socket is processed during the wait",
+                             "ares_event_update with arbitrary flags / fd class / cb / data / NULL thread, caller with or without the channel lock",
+                             "ares_event_thread_sockstate_cb under the channel lock", "notifywrite_cb under the channel lock"][op]))
     return J
